@@ -2,6 +2,7 @@
 from __future__ import annotations
 
 import copy
+import hashlib
 import pickle
 import random
 import shutil
@@ -163,9 +164,18 @@ class C09(Prop):
             runs = []
             for r in case["runs"]:
                 ref = impl.run_case(case["program"], None, r["values"], {"maxIter": 60}, r["runner"], record_events=True, async_bodies=False)
-                got = impl.run_case(case["program"], None, r["values"], {"maxIter": 60}, r["runner"], cache=cache, record_events=True, async_bodies=False)
+                env_g = Env()
+                got = impl.run_case(case["program"], None, r["values"], {"maxIter": 60}, r["runner"], cache=cache, record_events=True, async_bodies=False, env=env_g)
+                # digest of the pickled argument objects of every call, exactly what the cache key is computed from
+                pk = []
+                for (fid, kw), (_, ckw) in zip(env_g.log, got["calls"]):
+                    try:
+                        dg = hashlib.sha256(pickle.dumps(sorted(kw.items()))).hexdigest()[:12]
+                    except Exception:  # noqa: BLE001
+                        dg = "unpicklable"
+                    pk.append([fid, ckw, dg])
                 runs.append({"ref": _core(ref), "got": _core(got), "ref_calls": impl.sort_calls(ref["calls"]), "got_calls": impl.sort_calls(got["calls"]),
-                             "routes_ref": _routes(ref), "routes_got": _routes(got)})
+                             "got_pk": pk, "routes_ref": _routes(ref), "routes_got": _routes(got)})
         finally:
             if tmp:
                 shutil.rmtree(tmp, ignore_errors=True)
@@ -302,6 +312,10 @@ class C09(Prop):
                         seen[key] = seen.get(key, 0) + 1
             again = [k for k, c in seen.items() if c > 1]
             if again:
+                digests = {dg for r in obs["runs"] for f, kw, dg in r.get("got_pk", []) if f + repr(kw) == again[0]}
+                if len(digests) > 1:
+                    return ("cacheable node re-invoked for the same arguments although its entry is retained — equal arguments pickle to different bytes "
+                            f"(object sharing changes pickle's memo references, so the key differs): {again[0][:160]}")
                 return f"cacheable node re-invoked for the same arguments although its entry is retained: {again[0][:200]}"
         return None
 
@@ -339,6 +353,8 @@ class C09(Prop):
         return {"kind": "runs", "backend": case["backend"], "runs": len(case["runs"]), "hits": min(obs["hits"], 10), "ops": min(len(obs["ops"]), 40) // 10 * 10}
 
     def signature(self, case: dict, obs: Any, why: str) -> str:
+        if "equal arguments pickle to different bytes" in why:
+            return "site:compute_cache_key/pickle-memo"      # one call site, one root cause (known finding C09-F1), whatever the program
         return "case:" + canonical_hash(case)
 
     def neighbours(self, case: dict, rng: random.Random) -> Iterable[dict]:
